@@ -71,7 +71,7 @@ func vSameAST(a, b schema.ASTNode) bool {
 func vRootTemplate() []byte {
 	d := func(n string) byte { return zzverif.Digit(n) }
 	s := func(n string) byte { return zzverif.OneOf(n, "ab .:/#") }
-	switch zzverif.IntRange("root", 0, 15) {
+	switch zzverif.IntRange("root", 0, 18) {
 	case 0:
 		return []byte{'{', '"', 'a', '"', ':', ' ', d("d"), '}'}
 	case 1:
@@ -102,6 +102,12 @@ func vRootTemplate() []byte {
 		return vJoin([]byte(`"\u00e9\n`), []byte{s("s")}, []byte(`\\"`))
 	case 14: // rules followed by a bare dash: an empty note
 		return vJoin([]byte{d("d")}, []byte(" // {min: 0} -"))
+	case 16: // an EMPTY user comment: a bare '#' at the end of the line
+		return vJoin([]byte{d("d")}, []byte(" #"))
+	case 17: // a user comment at the end of the schema's last line
+		return vJoin([]byte("{\"a\": "), []byte{d("d")}, []byte("} # c"), []byte{s("s")})
+	case 18: // a user comment after an annotation
+		return vJoin([]byte{d("d")}, []byte(" // {min: 0} # "), []byte{s("s")})
 	default: // a multi-line annotation with a bare dash
 		return vJoin([]byte{d("d")}, []byte(" /* {min: 0} - */"))
 	}
